@@ -42,10 +42,14 @@ refsem.LEAVES.setdefault("RHb", {"kind": "ext", "ports": [("p", 1), ("n", 1), ("
 refsem.LEAVES.setdefault("RHc", {"kind": "ext", "ports": [("n", 1), ("p", 1)], "extname": "res_hi", "domain": "pdk_c"})
 
 
+# an external module with `dict` parameters (as every ASAP7 device, and everything from_proto produces)
+refsem.LEAVES.setdefault("DP", {"kind": "ext", "ports": [("d", 1), ("g", 1), ("s", 1), ("b", 1)], "dictparams": True})
+
+
 def unit_specs():
     """(label, unit target, list of modules the unit needs, scalar ports {name: width}, bundle ports {name: bundle})"""
     out = []
-    for leaf in ("R", "C", "VCVS", "MOS", "E1", "E3", "M4", "M5", "BI", "NM", "NM2", "RHa", "RHb", "RHc"):
+    for leaf in ("R", "C", "VCVS", "MOS", "E1", "E3", "M4", "M5", "BI", "NM", "NM2", "RHa", "RHb", "RHc", "DP"):
         out.append((leaf, ["leaf", leaf], [], dict(refsem.LEAVES[leaf]["ports"]), {}))
     # a module with bus ports
     um = {"name": "U", "style": "proc", "ports": [["x", 2, "in"], ["y", 2, "out"], ["k", 1, "inout"], ["v", 3, "none"]], "bports": [],
